@@ -2,6 +2,7 @@ package sim
 
 import (
 	"context"
+	"strconv"
 	"sync"
 	"fmt"
 	"math/rand/v2"
@@ -307,7 +308,7 @@ func ExecuteFree(t *testing.T, sc *Scenario, outp **Outcome) {
 			icmp.VerifSetEchoIDBase(sc.Knobs.EchoIDBase)
 		}
 		for i := range sc.Listeners {
-			ln, err := net.Listen("tcp4", sc.Listeners[i].Addr+":0")
+			ln, err := net.Listen("tcp4", sc.Listeners[i].Addr+":"+strconv.Itoa(sc.Listeners[i].Port))
 			if err != nil {
 				panic("verif-env: " + err.Error())
 			}
